@@ -281,7 +281,7 @@ def replay_msd(inputs):
 
 def bounded_msd(tier, seed):
     import numpy as np
-    n = 30 if tier == 'quick' else 600
+    n = 30 if tier == 'quick' else 6000
     st = Stand('C06.msd.bruteforce', f'{n} random trajectories: 2-24 frames (plus T=2,3 forced), 1-4 atoms, all lattice families incl. triclinic, steps up to 0.45 of the cell (many face crossings)',
                'seeded random vs brute-force double loop over time origins on independently unwrapped Cartesian positions; rtol 1e-7')
     rng = np.random.default_rng(seed + 606)
